@@ -88,6 +88,11 @@ def boundary_cases():
         add('stack1000/depth/%s' % POS[d], bytes([OP_1]) * (n - 1) + bytes([OP_DEPTH]))
         add('stack1000/ifdup/%s' % POS[d], bytes([OP_1]) * (n - 1) + bytes([OP_IFDUP]))
         add('stack1000/over-tuck/%s' % POS[d], bytes([OP_1]) * (n - 2) + bytes([OP_OVER, OP_TUCK]) if d >= 0 else bytes([OP_1]) * (n - 2) + bytes([OP_OVER]))
+    # the re-enabled opcodes (--allow-disabled-opcodes) are operations like any other: the combined size is checked after them too
+    for d in (-1, 0, 1):
+        n = 1000 + d
+        for opn, extra in (('OP_INVERT', 0), ('OP_2MUL', 0), ('OP_2DIV', 0), ('OP_CAT', 1), ('OP_AND', 1)):
+            add('stack1000/initial+%s/%s' % (opn, POS[d]), bytes([OP[opn[3:]]]), stack=[b'\x01'] * (n + extra), allow=True, svs=[BASE, WITNESS_V0])
     # ---- 201 counted operations
     for d in (-1, 0, 1):
         n = 201 + d
@@ -324,7 +329,8 @@ def binary_worker(job):
                 part.violation('%s:binary:%s' % (cellkey, r.crash_key('btcdeb')), wit)
                 continue
             if want[0] == 'ok':
-                if r.rc != 0 or r.stdout.decode('latin1') != c08.expected_stdout(want[1]):
+                numeric = any(isinstance(x, tuple) for x in want[1])     # (results of the re-enabled numeric opcodes: judged by C17, here only the verdict)
+                if r.rc != 0 or (not numeric and r.stdout.decode('latin1') != c08.expected_stdout(want[1])):
                     part.violation('%s:binary:rejects-or-misprints-a-script-within-the-limits' % cellkey, wit)
                     continue
             else:
